@@ -441,6 +441,95 @@ theorem C16_command_on_ended_session_changes_nothing (ops : List Op) (n : Net) (
     · rw [h]; simp
 
 
+/-! ### local sessions appear only through a valid local login -/
+
+/-- the local session stays or ends -/
+def LocShrink : Nat → Node → Node → Prop := fun _ a b => b.loc = a.loc ∨ b.loc = none
+
+theorem locShrink_frame : Frame LocShrink :=
+  { refl := fun _ _ => Or.inl rfl,
+    trans := fun _ _ _ _ h1 h2 => by
+      rcases h2 with h | h
+      · rcases h1 with g | g
+        · exact Or.inl (h.trans g)
+        · exact Or.inr (h.trans g)
+      · exact Or.inr h,
+    shr := fun _ _ _ h => h.loc, data := fun _ _ _ h => Or.inl (data_loc h) }
+
+theorem localExec_loc (a : Node) (k : Nat) : (a.localExec k).loc = a.loc := by
+  unfold Node.localExec Node.exec
+  split
+  · split <;> rfl
+  · rfl
+
+theorem remoteExec_loc (a : Node) (cid t k : Nat) : (a.remoteExec cid t k).loc = a.loc := by
+  unfold Node.remoteExec Node.exec
+  split <;> rfl
+
+theorem localLogin_loc (n : Net) (y' : Nat) (u p : String) (y : Nat) (b b1 : Node) (hb : n.node y = some b)
+    (hb1 : (localLogin n y' u p).1.node y = some b1) :
+    b1.loc = b.loc ∨ (y' = y ∧ b.loginOk u p = true ∧ b1.loc = some ⟨n.nextId, u, n.time⟩) := by
+  rcases localLogin_cases n y' u p with h | ⟨nd, hnd, hok, h⟩ <;> rw [h] at hb1
+  · rw [hb] at hb1; cases hb1; exact Or.inl rfl
+  · simp only [node_bump, node_upd] at hb1
+    by_cases hy : y' = y
+    · subst hy
+      rw [hb] at hnd; cases hnd
+      simp only [if_true, hb, Option.map_some, Option.some.injEq] at hb1
+      subst hb1
+      rcases localLoginCore_fst b u n.time n.nextId with ⟨h1, _⟩ | ⟨h1, _⟩ <;> rw [h1]
+      · exact Or.inl rfl
+      · exact Or.inr ⟨rfl, hok, rfl⟩
+    · simp only [hy, if_false] at hb1
+      rw [hb] at hb1; cases hb1; exact Or.inl rfl
+
+/-- **C16, logins (local), "only if".** If after any operation node `y` holds a local session it did not hold before, the
+operation was a local login (`Node.local_login`, or the login inside `send_local_command`) on `y` with the current password of
+an existing, enabled account, `y` ON and both managers RUNNING; the session is that user's and its id is fresh. -/
+theorem C16_local_session_only_by_valid_login (n : Net) (op : Op) (y : Nat) (b a : Node)
+    (hb : n.node y = some b) (ha : (step n op).1.node y = some a) (l : LSession) (hl : a.loc = some l)
+    (hnew : b.loc ≠ some l) :
+    ∃ u p, (op = .localLogin y u p ∨ ∃ k, op = .localCmd y u p k) ∧ AuthOK b u p ∧ l = ⟨n.nextId, u, n.time⟩ := by
+  have contra : Net.Rel LocShrink n (step n op).1 → False := fun h => by
+    obtain ⟨a', ha', hk⟩ := h.node y b hb
+    rw [ha] at ha'; cases ha'
+    rcases hk with hk | hk
+    · exact hnew (hk ▸ hl)
+    · rw [hk] at hl; cases hl
+  by_cases hop : ∃ y', (∃ u p, op = .localLogin y' u p) ∨ ∃ u p k, op = .localCmd y' u p k
+  · obtain ⟨y', ⟨u, p, rfl⟩ | ⟨u, p, k, rfl⟩⟩ := hop
+    · simp only [step] at ha
+      rw [opLocalLogin_fst] at ha
+      rcases localLogin_loc n y' u p y b a hb ha with h | ⟨rfl, hok, h⟩
+      · exact (hnew (h ▸ hl)).elim
+      · rw [hl] at h; cases h
+        exact ⟨u, p, Or.inl rfl, (loginOk_iff _ _ _).mp hok, rfl⟩
+    · simp only [step] at ha contra
+      rcases opLocalCmd_cases n y' u p k with h0 | ⟨nd, hnd, hon, ⟨_, h0⟩ | ⟨id, hid, h0⟩⟩
+      · rw [h0] at contra; exact (contra (locShrink_frame.rel_refl n)).elim
+      · rw [h0] at ha
+        rcases localLogin_loc n y' u p y b a hb ha with h | ⟨rfl, hok, h⟩
+        · exact (hnew (h ▸ hl)).elim
+        · rw [hl] at h; cases h
+          exact ⟨u, p, Or.inr ⟨k, rfl⟩, (loginOk_iff _ _ _).mp hok, rfl⟩
+      · rw [h0] at ha
+        have F : Pre (fun (_ : Nat) (_ _ : Node) => True) := ⟨fun _ _ => trivial, fun _ _ _ _ _ _ => trivial⟩
+        obtain ⟨b1, hb1, _⟩ := (F.localLogin n y' u p (fun _ _ => trivial)).node y b hb
+        have hloc : a.loc = b1.loc := by
+          simp only [node_upd] at ha
+          by_cases hy : y' = y
+          · simp only [hy, if_true, hy ▸ hb1, Option.map_some, Option.some.injEq] at ha
+            subst ha; rw [localExec_loc]; rfl
+          · simp only [hy, if_false] at ha
+            rw [hb1] at ha; cases ha; rfl
+        rcases localLogin_loc n y' u p y b b1 hb hb1 with h | ⟨rfl, hok, h⟩
+        · exact (hnew (h ▸ hloc ▸ hl)).elim
+        · rw [← hloc, hl] at h; cases h
+          exact ⟨u, p, Or.inr ⟨k, rfl⟩, (loginOk_iff _ _ _).mp hok, rfl⟩
+  · refine (contra (locShrink_frame.step n op (fun _ _ _ => Or.inl rfl) (fun _ _ _ _ => Or.inl rfl) (fun _ _ _ _ => Or.inl rfl)
+      (fun y' h => (hop ⟨y', h⟩).elim) (fun _ _ _ => Or.inl rfl) (fun _ _ _ => Or.inl rfl)
+      (fun _ a k => Or.inl (localExec_loc a k)) (fun _ a cid t k => Or.inl (remoteExec_loc a cid t k)))).elim
+
 /-! ### a login succeeds exactly when it should -/
 
 /-- **C16, logins (remote), both directions.** The remote-login request of node `x` towards `y` is answered `success`
@@ -502,7 +591,7 @@ theorem keepParams_frame : Frame KeepParams :=
 
 theorem step_keepParams (n : Net) (op : Op) : Net.Rel KeepParams n (step n op).1 := by
   refine keepParams_frame.step n op (fun _ _ _ => ⟨rfl, rfl, rfl⟩) (fun _ _ _ _ => ⟨rfl, rfl, rfl⟩) (fun _ _ _ _ => ⟨rfl, rfl, rfl⟩)
-    (fun _ _ _ => ⟨rfl, rfl, rfl⟩) (fun _ _ _ => ⟨rfl, rfl, rfl⟩) (fun _ _ _ => ⟨rfl, rfl, rfl⟩) ?_ ?_
+    (fun _ _ _ _ => ⟨rfl, rfl, rfl⟩) (fun _ _ _ => ⟨rfl, rfl, rfl⟩) (fun _ _ _ => ⟨rfl, rfl, rfl⟩) ?_ ?_
   · intro _ a k; unfold Node.localExec Node.exec
     split
     · split <;> exact ⟨rfl, rfl, rfl⟩
@@ -634,7 +723,7 @@ theorem C16_last_admin_step (n : Net) (op : Op) (h : AdminRemains n) : AdminRema
           omega
         · simp only [hea, if_false, Bool.false_eq_true] at hc
           omega
-    · refine (adminMono_frame.step n op ?_ ?_ ?_ (fun _ _ _ => Nat.le_refl _) (fun _ _ _ => Nat.le_refl _)
+    · refine (adminMono_frame.step n op ?_ ?_ ?_ (fun _ _ _ _ => Nat.le_refl _) (fun _ _ _ => Nat.le_refl _)
         (fun _ _ _ => Nat.le_refl _) ?_ ?_).mono (fun _ a b hab hpos => Nat.lt_of_lt_of_le hpos hab)
       · intro _ a w
         show adminCount a.users ≤ adminCount (a.users ++ [w])
